@@ -34,6 +34,8 @@ pub fn gen_doc(t: &mut Tape, gates: &Gates) -> Doc {
     // non-ASCII documents are generated also while KF-C15-02 is known (then judged in bytes)
     let _ = gates.want("SEMANTIC_TOKENS_NON_ASCII_DOCUMENT");
     opts.non_ascii = lt.ratio(1, 4);
+    // OSCAT marker comments are not used here: a blanked description block is no comment lexeme
+    opts.oscat_phase.set(255);
     let (lay, _) = layout(&lexemes, &opts, &mut lt);
     gates.take_hits();
     // advance the caller's tape a little so that successive documents differ
@@ -212,7 +214,7 @@ fn check_tape(tape: &[u8], gates: &Gates, stats: &mut Stats, counting: bool) -> 
     let derived = crate::tape::derived(tape, 64);
     let mut choice = Tape::new(&derived);
     // a history of 1..3 texts for the same URI; the last one is current
-    let n = 1 + choice.below(3);
+    let n = 1 + choice.below(4);
     let mut docs: Vec<Doc> = (0..n).map(|_| gen_doc(&mut t, gates)).collect();
     let lexical_error = choice.ratio(1, 8);
     if lexical_error {
@@ -226,11 +228,21 @@ fn check_tape(tape: &[u8], gates: &Gates, stats: &mut Stats, counting: bool) -> 
     if choice.flag() {
         msgs.push(lsp_did_open(other, 1, "PROGRAM other\nVAR\nz : INT;\nEND_VAR\nEND_PROGRAM\n"));
     }
+    let mut ver = 0i64;
+    let mut reopened = false;
     for (i, d) in docs.iter().enumerate() {
         if i == 0 {
+            ver = 1;
+            msgs.push(lsp_did_open(uri, 1, &d.text));
+        } else if choice.ratio(1, 4) {
+            // the client closes the document and opens it again: version numbering restarts
+            msgs.push(lsp_did_close(uri));
+            ver = 1;
+            reopened = true;
             msgs.push(lsp_did_open(uri, 1, &d.text));
         } else {
-            msgs.push(lsp_did_change(uri, 1 + i as i64, &[&d.text]));
+            ver += 1;
+            msgs.push(lsp_did_change(uri, ver, &[&d.text]));
         }
     }
     msgs.push(lsp_semantic_tokens(json!(7), uri));
@@ -255,6 +267,9 @@ fn check_tape(tape: &[u8], gates: &Gates, stats: &mut Stats, counting: bool) -> 
         stats.case(lines_with_tokens >= 3 && comment_then_token, hash_str(&doc.text));
         stats.class(if lexical_error { "doc.lexical-error" } else if doc.text.is_ascii() { "doc.ascii" } else { "doc.non-ascii" });
         stats.class(&format!("history.{}", n));
+        if reopened {
+            stats.class("history.with-close-and-reopen");
+        }
         stats.absorb_gates(gates);
         if stats.samples.len() < 2 && doc.text.len() < 500 {
             stats.samples.push(json!({"document": doc.text, "data_prefix": resp["result"]["data"].as_array().map(|a| a.iter().take(20).cloned().collect::<Vec<_>>())}));
@@ -288,7 +303,7 @@ pub fn run(ctx: &Ctx) -> i32 {
         ctx.tier,
         ctx.seed,
         "exploration",
-        "documents printed by the harness from the C01 generator in wild spelling (comments before tokens on the same line, multi-line comments, CRLF, mixed case; a separately counted non-ASCII class), opened and replaced through a history of 1..3 full-text versions (optionally with another document open), then semanticTokens/full. The response is decoded under the LSP relative encoding (legend read from the initialize response): strictly increasing, non-overlapping, every range equals exactly one lexeme of the harness' lexeme table for the CURRENT text in UTF-16 units (while KF-C15-02 is known, a non-ASCII document may instead be consistent in bytes - one unit for the whole response), legend entry compatible with the lexeme class, every identifier / comment / address lexeme reported; a document with an unlexable character yields result null. Non-trivial: >= 3 lines with tokens and a comment followed by a token on the same line; distinct by document text.",
+        "documents printed by the harness from the C01 generator in wild spelling (comments before tokens on the same line, multi-line comments, CRLF, mixed case; a separately counted non-ASCII class), opened and replaced through a history of 1..4 full-text versions (didChange, or didClose + didOpen with the version restarted) (optionally with another document open), then semanticTokens/full. The response is decoded under the LSP relative encoding (legend read from the initialize response): strictly increasing, non-overlapping, every range equals exactly one lexeme of the harness' lexeme table for the CURRENT text in UTF-16 units (while KF-C15-02 is known, a non-ASCII document may instead be consistent in bytes - one unit for the whole response), legend entry compatible with the lexeme class, every identifier / comment / address lexeme reported; a document with an unlexable character yields result null. Non-trivial: >= 3 lines with tokens and a comment followed by a token on the same line; distinct by document text.",
     );
     let gates = ctx.gates_for("C15");
     let off = gates.off_list();
